@@ -191,6 +191,9 @@ var c15RemotePool = []c15Codec{
 	// of that number must find the negotiated codec also while the other kind is not negotiated at all)
 	{Kind: "video", PT: 111, Name: "VP8", Clock: 90000, FB: []string{"nack"}},                      // local opus is 111
 	{Kind: "audio", PT: 96, Name: "opus", Clock: 48000, Ch: 2, Fmtp: "minptime=10;useinbandfec=1"}, // local VP8 is 96
+	// the local H264 102's profile_idc and packetization-mode with another profile-iop (constrained baseline vs
+	// baseline): a partial match only
+	{Kind: "video", PT: 107, Name: "H264", Clock: 90000, Fmtp: "level-asymmetry-allowed=1;packetization-mode=1;profile-level-id=42e01f", FB: []string{"nack"}},
 }
 
 type c15Case struct {
